@@ -123,6 +123,9 @@ func runC01Slots(c *Ctx) {
 		flx := newFlow(p)
 		flx.ExpandParams = true
 		flx.ThroughInPkg = true
+		// only callers on the WRITE request path contribute arguments: exported wrappers that
+		// nothing in the tree calls are library entry points, not part of the request
+		flx.CallerFilter = func(f *ssa.Function) bool { return reach[f] }
 		for _, fn := range p.SrcFuncs {
 			if !reach[fn] {
 				continue
